@@ -47,6 +47,8 @@ func noRuntimeLimits(c *Ctx, rule string) {
 
 func runC20(c *Ctx) {
 	noRuntimeLimits(c, "R10")
+	defer c.shared("R11", "C18/R1", "hitting a limit keeps the output written before it: printf writes its text at once with a single write (it is not held back in the evaluator until a newline or the end of the run)", keyHas("single-write"), runC18)
+	defer c.shared("R12", "C10/R6", "hitting a limit keeps the output written before it: no output is parked in evaluator state", keyHas("evaluator-state", "interpreter-state"), func(s *Ctx) { interpreterState(s, "R6") })
 	defer c.shared("R9", "C04/R3", "everything up to the decoder's nesting limit works: the renderer and the JSON converter give the cycle verdict only when the path scan finds the value among its ancestors, never because of its depth", keyHas("cycle-verdict"), func(s *Ctx) {
 		cycleGuard(s, "R3", "(*Value).toGoValueInterval")
 		cycleGuard(s, "R3", "(*Value).prettyStringInteral")
@@ -222,7 +224,8 @@ func runC20(c *Ctx) {
 		})
 		for _, call := range callsIn(fn) {
 			if f := call.Common().StaticCallee(); f != nil && (f.String() == "strings.Repeat" || f.String() == "bytes.Repeat") {
-				c.check(shortName(fn) == "lang.nativePrintf", "R5", "repeat in "+shortName(fn), p.InstrPos(call), "bounded by the printf width limit", "a Repeat outside printf has no limit test")
+				_, fmtFn, _ := printfFormatter(p)
+				c.check(shortName(fn) == "lang.nativePrintf" || fn == fmtFn, "R5", "repeat in "+shortName(fn), p.InstrPos(call), "bounded by the printf width limit", "a Repeat outside printf has no limit test")
 			}
 		}
 	}
